@@ -109,3 +109,112 @@ theorem piecesG_open (dfs : List TS) (lbs : List (Option Int)) (ubs : List Int) 
       cases u <;> simp <;> omega
 
 end Pyg.Slice
+
+namespace Pyg.Slice
+open Pyg
+
+/-! ### `df_unslice` under an unbounded last bound -/
+
+/-- the key an auxiliary closing bound `M` stands for -/
+def reopen (M : Int) (k : Int) : Option Int := if k = M then Option.none else some k
+
+theorem reopen_inj (M : Int) {a b : Int} (h : reopen M a = reopen M b) : a = b := by
+  unfold reopen at h
+  by_cases ha : a = M <;> by_cases hb : b = M <;> simp_all
+
+theorem map_reopen (M : Int) (ubs : List Int) (hM : M ∉ ubs) :
+    (ubs ++ [M]).map (reopen M) = ubs.map some ++ [Option.none] := by
+  rw [List.map_append]
+  congr 1
+  · apply List.map_congr_left
+    intro a ha
+    have : a ≠ M := fun h => hM (h ▸ ha)
+    simp [reopen, this]
+  · simp [reopen]
+
+theorem eraseDups_of_nodup {α} [BEq α] [LawfulBEq α] : ∀ (l : List α), l.Nodup → l.eraseDups = l
+  | [], _ => by simp
+  | a :: l, h => by
+    have hn := List.nodup_cons.mp h
+    rw [List.eraseDups_cons]
+    have : l.filter (fun b => !b == a) = l := by
+      rw [List.filter_eq_self]
+      intro b hb
+      have : b ≠ a := fun e => hn.1 (e ▸ hb)
+      simp [this]
+    rw [this, eraseDups_of_nodup l hn.2]
+
+/-- the slices `df_unslice` cuts under `[u_0 .. u_{k-1}, None]` are the slices under `[u_0 .. u_{k-1}, M]`, `M` beyond every row -/
+theorem slicesO_eq (F : Frame) (ubs : List Int) (M : Int) (hM : ∀ r ∈ F.rows, r.1 < M) :
+    ((Option.none :: ubs.map some).zip (ubs.map some ++ [Option.none])).map
+      (fun x => F.rows.filter fun r => inWindow false true (optDate x.1) (optDate x.2) r.1) = slicesOf F (ubs ++ [M]) := by
+  unfold slicesOf
+  apply List.ext_getElem
+  · simp
+  · intro i h1 h2
+    simp only [List.getElem_map, List.getElem_zip]
+    apply List.filter_congr
+    intro r hr
+    have hlt := hM r hr
+    simp only [List.length_map, List.length_zip, List.length_append, List.length_cons, List.length_nil] at h1
+    have hlo : optDate ((Option.none :: ubs.map some)[i]'(by simp; omega)) =
+        (Bound.none :: (ubs ++ [M]).dropLast.map Bound.date)[i]'(by simp; omega) := by
+      cases i with
+      | zero => rfl
+      | succ k => simp [optDate]
+    rw [hlo]
+    by_cases hi : i < ubs.length
+    · simp [List.getElem_append_left, hi, optDate]
+    · have hi' : i = ubs.length := by simp at h1; omega
+      subst hi'
+      simp [inWindow, ubOk, optDate]
+      omega
+
+theorem handedO_open (F : Frame) (ubs : List Int) (M : Int) (hM : ∀ r ∈ F.rows, r.1 < M) (hMu : M ∉ ubs) :
+    handedO F (ubs.map some ++ [Option.none]) = .ok ((rsOf F (ubs ++ [M])).map fun p => (reopen M p.1, p.2)) := by
+  have hm : ((Option.none :: (ubs.map some ++ [Option.none]).dropLast).zip (ubs.map some ++ [Option.none])).mapM
+      (fun (x : Option Int × Option Int) => match x with
+        | (l, u) => sliceWrap F.rows (optDate l) (optDate u) (some ['(', ']'])) = .ok (slicesOf F (ubs ++ [M])) := by
+    rw [← slicesO_eq F ubs M hM]
+    have hd : (ubs.map some ++ [Option.none]).dropLast = ubs.map some := by simp
+    rw [hd]
+    apply mapM_ok
+    intro x
+    obtain ⟨a, b⟩ := x
+    have : sliceWrap F.rows (optDate a) (optDate b) (some ['(', ']']) =
+        sliceOne F.rows (optDate a) (optDate b) (some ['(', ']']) := by
+      cases a <;> cases b <;> rfl
+    show sliceWrap F.rows (optDate a) (optDate b) (some ['(', ']']) = _
+    rw [this, sliceOne_eq _ _ _ _ false true rfl]
+  unfold handedO
+  simp only [bind, Except.bind, pure, Except.pure]
+  rw [hm]
+  simp only [rsOf, List.map_flatMap, List.map_map]
+  rw [← map_reopen M ubs hMu]
+  congr 2
+  funext x
+  rw [← List.map_drop, ← List.map_take, List.zipIdx_map, List.map_map]
+  rfl
+
+theorem filter_reopen (M : Int) (rs : List (Int × TS)) (u : Int) :
+    ((rs.map fun p => (reopen M p.1, p.2)).filter (·.1 == reopen M u)).flatMap (·.2) =
+      (rs.filter (·.1 == u)).flatMap (·.2) := by
+  induction rs with
+  | nil => rfl
+  | cons p rs ih =>
+    simp only [List.map_cons, List.filter_cons]
+    by_cases h : p.1 = u
+    · simp only [h, beq_self_eq_true, if_true, List.flatMap_cons, ih]
+    · have h' : reopen M p.1 ≠ reopen M u := fun e => h (reopen_inj M e)
+      simp only [beq_iff_eq, h, h', if_false, ih]
+
+/-- the series `df_unslice` recovers hold timestamps of the frame only -/
+theorem rsOf_index_sub (F : Frame) (ub : List Int) (u : Int) (c : TS) (h : (u, c) ∈ rsOf F ub) :
+    ∀ t ∈ c.index, ∃ r ∈ F.rows, r.1 = t := by
+  obtain ⟨i, j, hi, _, _, rfl⟩ := mem_rsOf.mp h
+  intro t ht
+  simp only [TS.index, column, List.mem_map, List.mem_filter] at ht
+  obtain ⟨p, ⟨r, ⟨hr, _⟩, rfl⟩, rfl⟩ := ht
+  exact ⟨r, hr, rfl⟩
+
+end Pyg.Slice
